@@ -100,8 +100,10 @@ def check_api(case, ctx):
 def files_strategy(tier):
     @st.composite
     def s(draw):
-        spec = draw(gen.dataset(max_inputs=2, clim=True, flavor="det", core_max=3, extra_max=1))
+        spec = draw(gen.dataset(max_inputs=3, clim=True, flavor="det", core_max=3, extra_max=1))
         case = {"spec": spec, "metric": draw(st.sampled_from(["mae", "rmse", "bias", "stderror"])),
+                # the climatology file may carry the same file name as one of the inputs (another directory)
+                "clim_named_like": draw(st.sampled_from([None, None, 0, 1])),
                 "axis": draw(st.sampled_from(["no", "time", "leadtime", "location", "month", "leadtimeday"])),
                 "kind": draw(st.sampled_from(["text", "netcdf"])), "flag": draw(st.sampled_from(["-c", "-c", "-C"]))}
         if draw(st.sampled_from([False, False, True])):
@@ -180,6 +182,15 @@ def check_files(case, ctx):
     d = os.path.join(ctx.scratch, "k%d" % _counter[0])
     os.makedirs(d)
     paths, cp = mat.write_files(spec, d, case["kind"])
+    like = case.get("clim_named_like")
+    same_name = False
+    if like is not None and like < len(paths):
+        os.makedirs(os.path.join(d, "climatology"))
+        moved = os.path.join(d, "climatology", os.path.basename(paths[like]))
+        os.rename(cp, moved)
+        cp = moved
+        same_name = True
+        ctx.label("files/climatology-named-like-an-input")
     tail = ["-m", case["metric"], "-x", case["axis"], "-type", "csv"]
     T = case.get("T")
     if T:
@@ -227,7 +238,7 @@ def check_files(case, ctx):
     h1, rows1 = drive.parse_csv(r1.lines())
     h2, rows2 = drive.parse_csv(r2.lines())
     names = [os.path.basename(p) for p in paths]
-    if h1[-n_in:] != names or os.path.basename(cp) in h1:
+    if h1[-n_in:] != names or (os.path.basename(cp) in h1 and not same_name) or len(h2) != len(h1) + 1:
         ctx.fail("C14/not-scored/header", case, "csv header with -c: %r" % h1)
     if flag == "-c" and len(rows1) != len(rows2):
         ctx.fail("C14/extra-input/rows", case, "%d rows with -c, %d with the climatology as an input" % (len(rows1), len(rows2)))
